@@ -597,6 +597,8 @@ T_IMPORTS69 = _T_COMMON + "(srfi 69))"
 T_IMPORTS125 = _T_COMMON + "(srfi 128) (srfi 125))"
 
 T_HEADER = r"""
+;; flush after every observation: a hang or crash is then attributed to the right step
+(define (%obs x) (write x) (newline) (flush-output-port))
 (define-record-type ra (make-ra p q) ra? (p ra-p) (q ra-q))
 """ + SPARE + r"""
 (define (%bvl b) (let lp ((i (- (bytevector-length b) 1)) (acc '())) (if (< i 0) acc (lp (- i 1) (cons (bytevector-u8-ref b i) acc)))))
